@@ -1,0 +1,203 @@
+//go:build verif
+
+// Verification hooks (build tag `verif`): exported thin wrappers around unexported functions and
+// accessors for unexported fields. Nothing here is compiled without the tag and nothing existing
+// is rewritten; the wrappers only forward to the real code.
+package genetics
+
+import (
+	"context"
+
+	"github.com/yaricom/goNEAT/v4/neat"
+	"github.com/yaricom/goNEAT/v4/neat/network"
+)
+
+/* ---- genome ---- */
+
+func VerifDuplicate(g *Genome, newId int) (*Genome, error) { return g.duplicate(newId) }
+func VerifGeneInsert(genes []*Gene, g *Gene) []*Gene       { return geneInsert(genes, g) }
+func VerifNodeInsert(nodes []*network.NNode, n *network.NNode) []*network.NNode {
+	return nodeInsert(nodes, n)
+}
+func VerifGenomeGeneInsert(g *Genome, gene *Gene)       { g.geneInsert(gene) }
+func VerifGenomeNodeInsert(g *Genome, n *network.NNode) { g.nodeInsert(n) }
+func VerifVerify(g *Genome) (bool, error)               { return g.verify() }
+func VerifHaveGene(g *Genome, gene *Gene) bool          { return g.haveGene(gene) }
+func VerifHaveNode(g *Genome, id int) bool              { return g.haveNode(id) }
+func VerifLastNodeId(g *Genome) (int, error)            { return g.getLastNodeId() }
+func VerifNextGeneInnovNum(g *Genome) (int64, error)    { return g.getNextGeneInnovNum() }
+func VerifNodeByIdMap(g *Genome) map[int]*network.NNode { return g.nodeByIdMap }
+func VerifNewGenomeRand(newId, in, out, n, maxHidden int, recurrent bool, linkProb float64, opts *neat.Options) (*Genome, error) {
+	return newGenomeRand(newId, in, out, n, maxHidden, recurrent, linkProb, opts)
+}
+
+/* ---- compatibility ---- */
+
+func VerifCompatLinear(g, og *Genome, opts *neat.Options) float64  { return g.compatLinear(og, opts) }
+func VerifCompatFast(g, og *Genome, opts *neat.Options) float64    { return g.compatFast(og, opts) }
+func VerifCompatibility(g, og *Genome, opts *neat.Options) float64 { return g.compatibility(og, opts) }
+
+/* ---- mutators ---- */
+
+func VerifMutateConnectSensors(g *Genome, innovations InnovationsObserver, opts *neat.Options) (bool, error) {
+	return g.mutateConnectSensors(innovations, opts)
+}
+func VerifMutateAddLink(g *Genome, innovations InnovationsObserver, generation int, opts *neat.Options) (bool, error) {
+	return g.mutateAddLink(innovations, generation, opts)
+}
+func VerifMutateAddNode(g *Genome, innovations InnovationsObserver, ids network.NodeIdGenerator, opts *neat.Options) (bool, error) {
+	return g.mutateAddNode(innovations, ids, opts)
+}
+
+// VerifMutateLinkWeights: cold = true selects the cold gaussian mutator
+func VerifMutateLinkWeights(g *Genome, power, rate float64, cold bool) (bool, error) {
+	mt := gaussianMutator
+	if cold {
+		mt = goldGaussianMutator
+	}
+	return g.mutateLinkWeights(power, rate, mt)
+}
+func VerifMutateRandomTrait(g *Genome, opts *neat.Options) (bool, error) {
+	return g.mutateRandomTrait(opts)
+}
+func VerifMutateLinkTrait(g *Genome, times int) (bool, error)    { return g.mutateLinkTrait(times) }
+func VerifMutateNodeTrait(g *Genome, times int) (bool, error)    { return g.mutateNodeTrait(times) }
+func VerifMutateToggleEnable(g *Genome, times int) (bool, error) { return g.mutateToggleEnable(times) }
+func VerifMutateGeneReEnable(g *Genome) (bool, error)            { return g.mutateGeneReEnable() }
+func VerifMutateAllNonstructural(g *Genome, opts *neat.Options) (bool, error) {
+	return g.mutateAllNonstructural(opts)
+}
+
+/* ---- crossover ---- */
+
+func VerifMateMultipoint(g, og *Genome, genomeId int, fitness1, fitness2 float64) (*Genome, error) {
+	return g.mateMultipoint(og, genomeId, fitness1, fitness2)
+}
+func VerifMateMultipointAvg(g, og *Genome, genomeId int, fitness1, fitness2 float64) (*Genome, error) {
+	return g.mateMultipointAvg(og, genomeId, fitness1, fitness2)
+}
+func VerifMateSinglePoint(g, og *Genome, genomeId int) (*Genome, error) {
+	return g.mateSinglePoint(og, genomeId)
+}
+
+/* ---- innovations ---- */
+
+// VerifInnovation exposes all fields of an innovation record; Type is 1 for new node, 2 for new link
+type VerifInnovation struct {
+	Type           int
+	InNodeId       int
+	OutNodeId      int
+	InnovationNum  int64
+	InnovationNum2 int64
+	NewWeight      float64
+	NewTraitNum    int
+	NewNodeId      int
+	OldInnovNum    int64
+	IsRecurrent    bool
+}
+
+func VerifInnovationFields(i Innovation) VerifInnovation {
+	return VerifInnovation{Type: int(i.innovationType), InNodeId: i.InNodeId, OutNodeId: i.OutNodeId,
+		InnovationNum: i.InnovationNum, InnovationNum2: i.InnovationNum2, NewWeight: i.NewWeight,
+		NewTraitNum: i.NewTraitNum, NewNodeId: i.NewNodeId, OldInnovNum: i.OldInnovNum, IsRecurrent: i.IsRecurrent}
+}
+
+func VerifMakeInnovation(v VerifInnovation) Innovation {
+	return Innovation{innovationType: innovationType(v.Type), InNodeId: v.InNodeId, OutNodeId: v.OutNodeId,
+		InnovationNum: v.InnovationNum, InnovationNum2: v.InnovationNum2, NewWeight: v.NewWeight,
+		NewTraitNum: v.NewTraitNum, NewNodeId: v.NewNodeId, OldInnovNum: v.OldInnovNum, IsRecurrent: v.IsRecurrent}
+}
+
+/* ---- population ---- */
+
+func VerifNewEmptyPopulation() *Population                  { return newPopulation() }
+func VerifPopInnovationsRaw(p *Population) []Innovation     { return p.innovations }
+func VerifPopSetInnovations(p *Population, in []Innovation) { p.innovations = in }
+func VerifPopNextInnovNum(p *Population) int64              { return p.nextInnovNum }
+func VerifPopNextNodeId(p *Population) int32                { return p.nextNodeId }
+func VerifPopSetCounters(p *Population, nextInnov int64, nextNode int32) {
+	p.nextInnovNum, p.nextNodeId = nextInnov, nextNode
+}
+func VerifSpawn(p *Population, g *Genome, opts *neat.Options) error { return p.spawn(g, opts) }
+func VerifSpeciate(p *Population, ctx context.Context, orgs []*Organism) error {
+	return p.speciate(ctx, orgs)
+}
+func VerifPurgeZeroOffspringSpecies(p *Population, generation int) {
+	p.purgeZeroOffspringSpecies(generation)
+}
+func VerifDeltaCoding(p *Population, sorted []*Species, opts *neat.Options) {
+	p.deltaCoding(sorted, opts)
+}
+func VerifGiveBabiesToTheBest(p *Population, sorted []*Species, opts *neat.Options) {
+	p.giveBabiesToTheBest(sorted, opts)
+}
+func VerifPurgeOrganisms(p *Population) error               { return p.purgeOrganisms() }
+func VerifPurgeOldGeneration(p *Population, best int) error { return p.purgeOldGeneration(best) }
+func VerifPurgeOrAgeSpecies(p *Population)                  { p.purgeOrAgeSpecies() }
+func VerifCheckBestSpeciesAlive(p *Population, id int, reproduced bool) error {
+	return p.checkBestSpeciesAlive(id, reproduced)
+}
+
+/* ---- species ---- */
+
+func VerifAdjustFitness(s *Species, opts *neat.Options)           { s.adjustFitness(opts) }
+func VerifCountOffspring(s *Species, skim float64) (int, float64) { return s.countOffspring(skim) }
+func VerifAddOrganism(s *Species, o *Organism)                    { s.addOrganism(o) }
+func VerifRemoveOrganism(s *Species, o *Organism) (bool, error)   { return s.removeOrganism(o) }
+func VerifSpeciesReproduce(s *Species, ctx context.Context, generation int, pop *Population, sorted []*Species) ([]*Organism, error) {
+	return s.reproduce(ctx, generation, pop, sorted)
+}
+
+/* ---- organism ---- */
+
+type VerifOrganismState struct {
+	OriginalFitness           float64
+	ToEliminate               bool
+	IsChampion                bool
+	SuperChampOffspring       int
+	IsPopulationChampion      bool
+	IsPopulationChampionChild bool
+	HighestFitness            float64
+	MutationStructBaby        bool
+	MateBaby                  bool
+}
+
+func VerifOrganismState_(o *Organism) VerifOrganismState {
+	return VerifOrganismState{OriginalFitness: o.originalFitness, ToEliminate: o.toEliminate, IsChampion: o.isChampion,
+		SuperChampOffspring: o.superChampOffspring, IsPopulationChampion: o.isPopulationChampion,
+		IsPopulationChampionChild: o.isPopulationChampionChild, HighestFitness: o.highestFitness,
+		MutationStructBaby: o.mutationStructBaby, MateBaby: o.mateBaby}
+}
+
+func VerifSetOrganismState(o *Organism, s VerifOrganismState) {
+	o.originalFitness, o.toEliminate, o.isChampion = s.OriginalFitness, s.ToEliminate, s.IsChampion
+	o.superChampOffspring, o.isPopulationChampion = s.SuperChampOffspring, s.IsPopulationChampion
+	o.isPopulationChampionChild, o.highestFitness = s.IsPopulationChampionChild, s.HighestFitness
+	o.mutationStructBaby, o.mateBaby = s.MutationStructBaby, s.MateBaby
+}
+
+/* ---- sequential epoch executor phases ---- */
+
+func VerifEpochPrepare(s *SequentialPopulationEpochExecutor, ctx context.Context, generation int, p *Population) error {
+	return s.prepareForReproduction(ctx, generation, p)
+}
+func VerifEpochReproduce(s *SequentialPopulationEpochExecutor, ctx context.Context, generation int, p *Population) error {
+	return s.reproduce(ctx, generation, p)
+}
+func VerifEpochFinalize(s *SequentialPopulationEpochExecutor, ctx context.Context, p *Population) error {
+	return s.finalizeReproduction(ctx, p)
+}
+func VerifEpochSortedSpecies(s *SequentialPopulationEpochExecutor) []*Species { return s.sortedSpecies }
+func VerifEpochBestSpeciesId(s *SequentialPopulationEpochExecutor) int        { return s.bestSpeciesId }
+
+// VerifParallelReproduce runs only the parallel reproduction phase (after a sequential prepare)
+func VerifParallelPrepare(p *ParallelPopulationEpochExecutor, ctx context.Context, generation int, pop *Population) error {
+	p.sequential = &SequentialPopulationEpochExecutor{}
+	return p.sequential.prepareForReproduction(ctx, generation, pop)
+}
+func VerifParallelReproduce(p *ParallelPopulationEpochExecutor, ctx context.Context, generation int, pop *Population) error {
+	return p.reproduce(ctx, generation, pop)
+}
+func VerifParallelFinalize(p *ParallelPopulationEpochExecutor, ctx context.Context, pop *Population) error {
+	return p.sequential.finalizeReproduction(ctx, pop)
+}
